@@ -7,7 +7,7 @@ J="${1:-4}"
 cd /verif || exit 2
 PROPS=$(cat tools/ready.txt)
 ls seeded_harmless | grep '^H' | xargs -P "$J" -I{} sh -c \
-  "tools/mutrun.sh seeded_harmless/{}/patch.diff quick $PROPS 2>&1 | grep '^== ' | sed 's/^== /{} /' > /tmp/harm_{}.txt"
+  "tools/mutrun.sh /verif/seeded_harmless/{}/patch.diff quick $PROPS 2>&1 | grep '^== ' | sed 's/^== /{} /' > /tmp/harm_{}.txt"
 cat /tmp/harm_H*.txt | sort > seeded_harmless/RESULTS.txt
 rm -f /tmp/harm_H*.txt
 grep -c 'rc=0' seeded_harmless/RESULTS.txt
